@@ -11,6 +11,7 @@
 (*                  "est"    the stddev estimator is left with one member      *)
 (*                  "pert"   too few successful perturbations (gradients only) *)
 (*                  "allnan" every realization fails with realization_min_success = 0 *)
+(*                  "estpert" / "allnanpert" the same two conditions arising only in a gradient evaluation *)
 (*                  "exc"    the user's evaluator raises an exception,         *)
 (*       maxfun |-> function budget (0 = none), allownan |-> NaN-tolerant back-end] *)
 EXTENDS Util
@@ -26,6 +27,8 @@ Fails(i, r) ==
   /\ i = cfg.failAt
   /\ CASE cfg.fclass \in {"thr", "filter", "est"} -> HasF(r)
        [] cfg.fclass = "pert"   -> HasG(r)
+       [] cfg.fclass = "estpert" -> HasG(r)          \* perturbation failures leave the stddev estimator one realization
+       [] cfg.fclass = "allnanpert" -> HasG(r) /\ cfg.kind = "opt" /\ ~cfg.allownan   \* every perturbed evaluation fails, min_success = 0
        [] cfg.fclass = "allnan" -> HasF(r) /\ cfg.kind = "opt" /\ ~cfg.allownan     \* a back-end that cannot digest NaN values stops
        [] OTHER -> FALSE
 
